@@ -52,33 +52,38 @@ Theorem C03_outcomes_exact_outside_known : forall c ls u,
 Proof. exact outcomes_exact_outside_known. Qed.
 Print Assumptions C03_outcomes_exact_outside_known.
 
-(** COUNT differs from the number of selected events in two known classes:
-    (a) CountIgnoresTypeInMemory — memory holds an event of another type;
-    (b) CountDuringFlush — between FwPublish and FwClear the rotated events are
-    in the passive copy and in the published segment and are counted twice. *)
+(** COUNT differs from the number of selected events in one known class, CountDuringFlush: between
+    FwPublish and FwClear the rotated events are in the passive copy and in the published segment and are
+    counted twice.  (The former class CountIgnoresTypeInMemory - memory holds an event of another type - is
+    repaired by fix dc170f4; [count] reads the regenerated flag [Params.agg_mem_filters_type], so the
+    theorems below stop checking if the in-memory rows are aggregated without the type condition again.) *)
 Theorem C03_count_refuted :
-  (exists c ls u, let s := run (init c) ls in
+  exists c ls u, let s := run (init c) ls in
      no_crash ls /\ NoDup (map ek (applied ls)) /\
-     CountIgnoresTypeInMemory s u = true /\ CountDuringFlush s = false /\
-     count s u <> len (select s u)) /\
-  (exists c ls u, let s := run (init c) ls in
-     no_crash ls /\ NoDup (map ek (applied ls)) /\
-     CountIgnoresTypeInMemory s u = false /\ CountDuringFlush s = true /\
+     CountDuringFlush s = true /\
      jobs s = [mkJob 0 (applied ls) StPublished] /\
-     count s u = 2 /\ len (select s u) = 1).
+     count s u = 2 /\ len (select s u) = 1.
 Proof. exact count_refuted. Qed.
 Print Assumptions C03_count_refuted.
 
-(** Outside both classes (no in-memory row of another type, no row both in memory
-    and in a scanned segment) COUNT equals the number of selected events, hence
-    (by [C03_select_exact]) the number of applied events of the type. *)
+(** Outside that class (no row both in memory and in a scanned segment) COUNT equals the number of
+    selected events, hence (by [C03_select_exact]) the number of applied events of the type - whatever
+    other event types memory holds. *)
 Theorem C03_count_exact_outside_known : forall c ls u,
   no_crash ls -> NoDup (map ek (applied ls)) ->
   let s := run (init c) ls in
-  CountIgnoresTypeInMemory s u = false -> CountDuringFlush s = false ->
+  CountDuringFlush s = false ->
   count s u = len (select s u).
 Proof. exact count_exact_outside_known. Qed.
 Print Assumptions C03_count_exact_outside_known.
+
+(** The witness of the retired class: one event of type 1 in memory, COUNT for type 0 is 0. *)
+Theorem C03_count_other_type_exact :
+  let s := run (init 2) ls_count_a in
+  no_crash ls_count_a /\ NoDup (map ek (applied ls_count_a)) /\ mem_rows s = [mkEv 0 0 1] /\
+  CountDuringFlush s = false /\ count s 0 = 0 /\ select s 0 = [] /\ count s 1 = 1.
+Proof. exact count_other_type_exact. Qed.
+Print Assumptions C03_count_other_type_exact.
 
 (** The class [CountDuringFlush] says exactly: some row is in memory and in a scanned segment. *)
 Theorem C03_CountDuringFlush_spec : forall s,
@@ -108,6 +113,6 @@ Theorem C03_count_exact_example :
   let s := run (init 2) ls_ex_count in
   no_crash ls_ex_count /\ NoDup (map ek (applied ls_ex_count)) /\
   map jstage (jobs s) = [StQueued; StQueued] /\ live s = [0] /\
-  CountIgnoresTypeInMemory s 0 = false /\ CountDuringFlush s = false /\ count s 0 = 5.
+  CountDuringFlush s = false /\ count s 0 = 3 /\ count s 1 = 2 /\ len (mem_rows s) = 3.
 Proof. exact count_exact_example. Qed.
 Print Assumptions C03_count_exact_example.
